@@ -4,6 +4,7 @@
 -/
 import Sq.Proto
 import Sq.Machine
+import Sq.Session
 namespace Sq
 namespace Proto
 
@@ -316,6 +317,126 @@ def evalCmd (body : String) : String :=
           | _ => "bad-names")
        | _, _, _ => "bad-fields")
     | _, _, _, _ => "bad-eval"
+
+end Proto
+end Sq
+
+namespace Sq
+namespace Proto
+
+/-! ### the SESSION command: a sequence of API calls on one SqParser -/
+
+/-- parse function backed by the table of fresh-parser answers supplied by the harness; only
+    valid from the initial lexer state (which is what the calls' resets establish) -/
+def tableParse (tbl : List (List Char × ParseOut)) : ParseFn := fun st src =>
+  if st.pos = 0 ∧ st.line = 1 ∧ st.depth = 0 then
+    match tbl.find? (fun p => p.1 == src) with
+    | some p => p.2
+    | none => .unmodelled "no-table-entry"
+  else .unmodelled "stale-lexer-state"
+
+def readParses (f : Nat) : List SExp → Option (List (List Char × ParseOut))
+  | [] => some []
+  | .list [.atom h, .atom "ok", t] :: r =>
+    (match unhex h, readOp f t, readParses f r with
+     | some s, some op, some rest => some ((s, .ok op) :: rest)
+     | _, _, _ => none)
+  | .list [.atom h, .atom "err", .atom cls, .atom m] :: r =>
+    (match unhex h, unhex m, readParses f r with
+     | some s, some msg, some rest =>
+       some ((s, if cls == "lex" then ParseOut.lexErr (msg.getLastD ' ') else if cls == "res" then .resErr msg
+                 else .synErr none msg) :: rest)
+     | _, _, _ => none)
+  | _ => none
+
+def parseOutBrief : ParseOut → String
+  | .ok t => "ok " ++ t.render
+  | .lexErr c => "err parser " ++ hex (illegalMessage c)
+  | .synErr _ m => "err parser " ++ hex m
+  | .resErr m => "err parser " ++ hex m
+  | .unmodelled w => "U " ++ w
+
+def policyOf (k : String) : Policy :=
+  if k == "lru2" then Policy.lru 2 else if k == "evict" then Policy.evict else Policy.dict
+
+def runCalls (f : Nat) (pf : ParseFn) (pol : Policy) (maps : List Nat) :
+    List SExp → Session → List String → List String
+  | [], _, acc => acc.reverse
+  | c :: rest, s, acc =>
+    match c with
+    | .list [.atom "parse", .atom h] =>
+      (match unhex h with
+       | none => (("bad-hex") :: acc).reverse
+       | some src =>
+         let (r, s') := parseCall pf pol s src
+         runCalls f pf pol maps rest s' (parseOutBrief r :: acc))
+    | .list [.atom "names", .atom h, .atom k] =>
+      (match unhex h with
+       | none => (("bad-hex") :: acc).reverse
+       | some src =>
+         let ((ns, err), s') := listNamesCall s src (if k == "all" then none else k.toNat?)
+         let out := "names " ++ " ".intercalate (ns.map hex) ++
+           (match err with
+            | some (.illegal ch _) => " err parser " ++ hex (illegalMessage ch)
+            | some (.unmodelled ch) => " U char:" ++ toString ch.toNat
+            | none => "")
+         runCalls f pf pol maps rest s' (out :: acc))
+    | .list [.atom "eval", .atom h, .atom mi, .atom b, .atom rng] =>
+      (match unhex h, mi.toNat?, (if b == "default" then some defaultBudget else b.toNat?), rng.toNat? with
+       | some src, some i, some budget, some seed =>
+         (match maps[i]? with
+          | none => (("bad-map") :: acc).reverse
+          | some addr =>
+            let s0 := { s with world := { s.world with rng := seed } }
+            let vmi := s0.world.vms.length
+            let (r, s') := evalCall pf pol maxSteps s0 src addr budget
+            let h := s'.world.heap
+            let fu := wrFuel h
+            let st0 : WrSt := { seen := [], next := 0 }
+            let (hd, st1) : String × WrSt := match r with
+              | .ok v => let (t, st) := writeVal fu h st0 v; ("ok " ++ t, st)
+              | .err (.unmodelled w) => ("U " ++ w, st0)
+              | .err e => ("err " ++ e.cls, st0)
+              | .parseFail p => (parseOutBrief p, st0)
+              | .steps => ("U steps", st0)
+            let (nm, _) := writeVal fu h st1 (.ref addr)
+            let ops := (s'.world.vm? vmi).map (·.ops) |>.getD 0
+            let out := if hd.startsWith "U " then hd else hd ++ " ;; names " ++ nm ++ " ;; ops " ++ toString ops
+            runCalls f pf pol maps rest s' (out :: acc))
+       | _, _, _, _ => (("bad-eval") :: acc).reverse)
+    | .list [.atom "hostpush", .atom mi, .atom n, v] =>
+      -- the host appends a value to the list bound to a name in one of its mappings
+      (match mi.toNat?, unhex n, readVal f { heap := s.world.heap, objs := [] } v with
+       | some i, some nm, some (vv, st) =>
+         (match maps[i]? with
+          | some addr =>
+            (match scopeFind st.heap addr nm with
+             | some (.ref a) =>
+               (match st.heap.get? a with
+                | some (.list xs) =>
+                  let s' := { s with world := { s.world with heap := st.heap.set a (.list (xs ++ [vv])) } }
+                  runCalls f pf pol maps rest s' ("host ok" :: acc)
+                | _ => runCalls f pf pol maps rest s ("host skip" :: acc))
+             | _ => runCalls f pf pol maps rest s ("host skip" :: acc))
+          | none => (("bad-map") :: acc).reverse)
+       | _, _, _ => (("bad-hostpush") :: acc).reverse)
+    | _ => (("bad-call") :: acc).reverse
+
+def sessionCmd (body : String) : String :=
+  match sRead body with
+  | none => "bad-sexp"
+  | some es =>
+    let f := body.length + 16
+    match field? "cache" es, field? "heap" es, field? "calls" es, field? "parses" es with
+    | some [.atom ck], some [hv], some calls, some ps =>
+      (match readVal f { heap := [], objs := [] } hv, readParses f ps with
+       | some (.tuple ms, st), some tbl =>
+         let maps := ms.filterMap (fun v => match v with | .ref a => some a | _ => none)
+         let w : World := { heap := st.heap, vms := [], log := [], rng := 1, rx := [], probes := [] }
+         let s0 := Session.fresh (if ck == "none" then none else some []) w
+         " || ".intercalate (runCalls f (tableParse tbl) (policyOf ck) maps calls s0 [])
+       | _, _ => "bad-session-fields")
+    | _, _, _, _ => "bad-session"
 
 end Proto
 end Sq
